@@ -356,7 +356,12 @@ check:
 	case y.Kind == Yidentityref:
 		if source != "builtin" {
 			// This is a typedef that refers to an identityref, so we want to simply
-			// maintain the base that the typedef resolution provided
+			// maintain the base that the typedef resolution provided.  An
+			// identityref cannot be restricted (RFC 7950 9.10.1): a base
+			// written here would be dropped, undefined or not.
+			if t.IdentityBase != nil {
+				errs = append(errs, fmt.Errorf("%s: base %s: a type derived from an identityref cannot have a base", Source(t), t.IdentityBase.Name))
+			}
 			break
 		}
 
